@@ -516,6 +516,7 @@ func keys(m map[string]bool) string {
 }
 
 var varRe = regexp.MustCompile(`^([VW])(\d+)([abti])$`)
+var dynRe = regexp.MustCompile(`^D(\d+)$`)
 
 func main() {
 	data, err := os.ReadFile(os.Args[1])
@@ -529,6 +530,7 @@ func main() {
 	fset := token.NewFileSet()
 	im := imp{map[string]*types.Package{}}
 	vars := map[string]types.Type{}
+	dyns := map[string]types.Type{}
 	for _, p := range jb.Packages {
 		f, err := parser.ParseFile(fset, p.Path+"/x.go", p.Src, 0)
 		if err != nil {
@@ -547,6 +549,9 @@ func main() {
 			if v, ok := obj.(*types.Var); ok && varRe.MatchString(id.Name) {
 				vars[id.Name] = v.Type()
 			}
+			if v, ok := obj.(*types.Var); ok && dynRe.MatchString(id.Name) {
+				dyns[id.Name] = v.Type()
+			}
 		}
 	}
 	b := abi.New(8, types.SizesFor("gc", "amd64"))
@@ -564,6 +569,18 @@ func main() {
 	sort.Ints(vi)
 	sort.Ints(wi)
 	w := os.Stdout
+	if len(dyns) > 0 {
+		// dynamic equality / hashing part (dyn.go): descriptors of the D<i> variables, in index order
+		ds := newDynSer(b)
+		for i := 0; i < len(dyns); i++ {
+			t, ok := dyns[fmt.Sprintf("D%d", i)]
+			if !ok {
+				fmt.Println("error dyn: D", i, "missing")
+				os.Exit(2)
+			}
+			fmt.Fprintf(w, "dyn %d %s %s | %s\n", i, b01(types.Comparable(t)), ds.desc(t), ds.term(t))
+		}
+	}
 	for _, i := range vi {
 		ta, tb := vars[fmt.Sprintf("V%da", i)], vars[fmt.Sprintf("V%db", i)]
 		if tb == nil {
